@@ -6,6 +6,22 @@ STUB_PATHS = {
     "barrier": ("zeroize::optimization_barrier", "noop_barrier"),
     "fmt": ("alloc::fmt::format", "fmt_stub"),
     "b2compress": ("crate::blake2b::blake2b_soft::compress", "compress_log_stub"),
+    "mac_new": ("crate::poly1305::poly1305_soft::Poly1305::new", "poly_new_stub"),
+    "mac_update": ("crate::poly1305::poly1305_soft::Poly1305::update", "poly_update_stub"),
+    "mac_finalize": ("crate::poly1305::poly1305_soft::Poly1305::finalize", "poly_finalize_stub"),
+    "seal_nonce": ("crate::classic::crypto_box::crypto_box_seal_nonce", "seal_nonce_stub"),
+    "b2_finalize_any": ("crate::blake2b::blake2b_soft::State::finalize", "b2_finalize_any_stub"),
+    "fmo": ("curve25519_dalek::scalar::Scalar::from_bytes_mod_order", "from_mod_order_stub"),
+    "fwide": ("curve25519_dalek::scalar::Scalar::from_bytes_mod_order_wide", "from_wide_stub"),
+    "decompress": ("curve25519_dalek::edwards::CompressedEdwardsY::decompress", "decompress_stub"),
+    "small_order": ("curve25519_dalek::edwards::EdwardsPoint::is_small_order", "small_order_stub"),
+    "dsm": ("curve25519_dalek::edwards::EdwardsPoint::vartime_double_scalar_mul_basepoint", "dsm_stub"),
+    "point_eq": ("<curve25519_dalek::edwards::EdwardsPoint as subtle::ConstantTimeEq>::ct_eq", "point_eq_stub"),
+    "point_neg": ("<&curve25519_dalek::edwards::EdwardsPoint as core::ops::Neg>::neg", "neg_stub"),
+    "sha_update": ("crate::sha512::Sha512::update", "sha_update_stub"),
+    "sha_finalize": ("crate::sha512::Sha512::finalize_into_bytes", "sha_finalize_stub"),
+    "scalarmult": ("crate::scalarmult_curve25519::crypto_scalarmult_curve25519", "scalarmult_stub"),
+    "scalarmult_base": ("crate::scalarmult_curve25519::crypto_scalarmult_curve25519_base", "scalarmult_base_stub"),
 }
 
 
@@ -30,3 +46,8 @@ def hdr(stubs=("barrier", "fmt"), extra=()):
 
 def stub_names(stubs=("barrier", "fmt"), extra=()):
     return [STUB_PATHS[k][0] for k in stubs] + [a for a, _ in extra]
+
+
+MAC = ("mac_new", "mac_update", "mac_finalize")
+
+ED_VERIFY = ("fmo", "fwide", "decompress", "small_order", "dsm", "point_eq", "point_neg", "sha_update", "sha_finalize")
